@@ -155,6 +155,12 @@ def _split_cases(out):
     return res, order
 
 
+MAX_FAILED_CASES_PER_CALL = 12
+# valgrind memcheck as a wrapper of an uninstrumented build: uninitialised-value errors only (lib/memcheck.supp)
+MEMCHECK = ("valgrind", "-q", "--error-exitcode=71", "--exit-on-first-error=yes", "--track-origins=no",
+            "--suppressions=" + os.path.join(os.path.dirname(os.path.abspath(__file__)), "memcheck.supp"))
+
+
 def run_cases(exe, cases, args=(), env=None, wall_s=WALL_WATCHDOG_S, wrapper=(),
               retry_timeouts=True):
     """as _run_cases; a case that exceeded its CPU budget is re-run once alone and counts as
@@ -176,6 +182,7 @@ def _run_cases(exe, cases, args=(), env=None, wall_s=WALL_WATCHDOG_S, wrapper=()
     contain no whitespace."""
     results = {}
     remaining = list(cases)
+    failures = 0
     full_env = dict(os.environ)
     full_env.update(SAN_ENV)
     if env:
@@ -225,4 +232,12 @@ def _run_cases(exe, cases, args=(), env=None, wall_s=WALL_WATCHDOG_S, wrapper=()
                                                     "driver-stopped-early")
             break
         remaining = remaining[last_done + 1:]
+        failures += 1
+        if failures >= MAX_FAILED_CASES_PER_CALL and remaining:
+            # a tree on which (nearly) every case dies: the witnesses collected so far decide the run; the cases
+            # that were not executed are reported as skipped (the caller turns skipped cases without any recorded
+            # violation into an inconclusive run)
+            for cid, _ in remaining:
+                results[cid] = CaseResult(cid, "skipped", [], "", "skipped-after-%d-failed-cases" % failures)
+            break
     return results
